@@ -41,6 +41,14 @@ def valid_fields(fmt, rowid, spelling):
         q = geom.rot_to_quat_wxyz(geom.rodrigues((1, -1, 2), 0.7 + rowid))
         vals = [1403636579763555584 + 5000000 * rowid, 4.5 + rowid, -1.25,
                 0.5 * rowid] + list(q) + [0.01 * k for k in range(9)]
+    if spelling == 2:
+        # a row that is stamped EARLIER than the rows before it (keyframe
+        # dumps, concatenated logs): still a well-formed row, in its place
+        spelling = 0
+        if fmt == "tum":
+            vals[0] = 1.25 - rowid
+        elif fmt == "euroc":
+            vals[0] = 1403636579763555584 - 5000000 * (rowid + 1)
     out = []
     for k, v in enumerate(vals[:n]):
         if fmt == "euroc" and k == 0:
@@ -57,7 +65,8 @@ def valid_fields(fmt, rowid, spelling):
 
 def row_kinds(fmt):
     n = NCOLS[fmt]
-    kinds = [("valid", 0), ("valid", 1), ("comment", None), ("few", None),
+    kinds = [("valid", 0), ("valid", 1), ("valid", 2), ("comment", None),
+             ("few", None),
              ("many", None), ("trailing", None), ("doubled", None),
              ("blank", None)]
     for c in sorted({0, 1, 3, 4, n - 1} | ({7, 8, 12} if fmt == "euroc"
@@ -133,7 +142,17 @@ def judge_file(fmt, kinds, eol, bom, via, wd):
         text, cls = render_row(fmt, k, i)
         lines.append(text)
         classes.append(cls)
-    text = eol.join(lines) + eol
+    # (an end-of-line token ending in "!" means: no line end after the last
+    # row - the file ends with its last data character)
+    final = not eol.endswith("!")
+    eol = eol.rstrip("!")
+    if not final and lines and lines[-1] == "":
+        # an empty last row without line end is no row at all: the text is
+        # the preceding rows, each ended by a line end
+        lines.pop()
+        classes.pop()
+        final = True
+    text = eol.join(lines) + (eol if final else "")
     data_classes = [c for c in classes if c is not None]
     if fmt == "euroc":
         # numeric rows with >= 8 columns; all rows must agree in their
@@ -438,11 +457,12 @@ def shard_transforms(arg):
     return acc
 
 
-VIAS_FULL = [(eol, bom, via) for eol in ("\n", "\r\n")
+VIAS_FULL = [(eol, bom, via) for eol in ("\n", "\r\n", "\n!", "\r\n!")
              for bom, via in ((False, "str"), (False, "path"),
                               (False, "handle"), (True, "str"))]
 VIAS_QUICK = [("\n", False, "str"), ("\r\n", True, "str"),
-              ("\n", False, "handle"), ("\r\n", False, "path")]
+              ("\n", False, "handle"), ("\r\n", False, "path"),
+              ("\n!", False, "str"), ("\r\n!", False, "handle")]
 
 
 def run(ctx):
